@@ -17,13 +17,21 @@ from . import build, tlc
 _ACTION = re.compile(r"^\\\* <(\w+)(?:\(([^)]*)\))? line")
 
 
-def simulate(module: str, cfg: str, num: int, depth: int, seed: int, timeout: int = 600) -> List[Dict[str, Any]]:
+def simulate(module: str, cfg: str, num: int, depth: int, seed: int, timeout: int = 600,
+             cfg_subst: Optional[Dict[str, str]] = None) -> List[Dict[str, Any]]:
     """Returns a list of behaviours: {"actions": [(name, [args])...], "first_state": text}"""
     d = tlc.scratch("sim-" + module)
     try:
         for name in os.listdir(tlc.SPEC):
             if name.endswith(".tla") or name.endswith(".cfg"):
                 shutil.copy(os.path.join(tlc.SPEC, name), d)
+        if cfg_subst:
+            text = open(os.path.join(d, cfg)).read()
+            for old, new in cfg_subst.items():
+                if old not in text:
+                    raise tlc.TLCError("configuration %s has no %r to substitute" % (cfg, old))
+                text = text.replace(old, new)
+            open(os.path.join(d, cfg), "w").write(text)
         out_dir = os.path.join(d, "out")
         os.makedirs(out_dir)
         cmd = ["tlc", "-simulate", "file=%s/tr,num=%d" % (out_dir, num), "-depth", str(depth), "-workers", "1",
@@ -133,20 +141,27 @@ def h1_script_from_behaviour(beh: Dict[str, Any], ka_ticks: int, tick_s: float, 
             off = offs.get(st["app"], 0)
             spec["pat"] = [spec["pat"][0], off, spec["pat"][2]]
             offs[st["app"]] = off + spec["pat"][2]
-    sc.update({"carrier": "h1", "cfg": dict(cfg, keep_alive_timeout=ka_ticks * tick_s),
+    sc.update({"carrier": "h1", "plan": plan, "cfg": dict(cfg, keep_alive_timeout=ka_ticks * tick_s),
                "apps": {"*": [["remote"]]}, "steps": steps, "fam": fam})
     return sc
 
 
 def gen_h1_from_spec(tier: str, rng, cfg_name: str = "MC_H1Conn_sim.cfg") -> Iterator[Dict[str, Any]]:
-    num = 150 if tier == "quick" else 3000
-    seed = rng.randrange(1, 1 << 30)
-    behaviours = simulate("MC_H1Conn", cfg_name, num=num, depth=60, seed=seed)
-    for i, beh in enumerate(behaviours):
-        sc = h1_script_from_behaviour(beh, ka_ticks=2, tick_s=1.0, cfg={"max_app_queue_size": 1, "keep_alive_max_requests": 2},
-                                      fam="tlc/H1Conn/sim")
-        if sc is not None:
-            yield sc
+    # Random walks with every fault enabled end early (a fault is as likely as a useful step), so the
+    # environment is varied: no fault at all (pipelines, full queues, recycling, expiry), one kind each, all.
+    mixes = [("none", "{}", 3), ("eof", '{"eof"}', 1), ("reset", '{"reset"}', 1), ("fail", '{"fail"}', 1),
+             ("term", '{"term"}', 1), ("all", '{"eof", "reset", "fail", "term"}', 1)]
+    unit = 20 if tier == "quick" else 400
+    for label, faults, weight in mixes:
+        seed = rng.randrange(1, 1 << 30)
+        behaviours = simulate("MC_H1Conn", cfg_name, num=unit * weight, depth=80, seed=seed,
+                              cfg_subst={'Faults = {"eof", "reset", "fail", "term"}': "Faults = %s" % faults})
+        for beh in behaviours:
+            sc = h1_script_from_behaviour(beh, ka_ticks=2, tick_s=1.0,
+                                          cfg={"max_app_queue_size": 1, "keep_alive_max_requests": 2},
+                                          fam="tlc/H1Conn/sim-" + label)
+            if sc is not None:
+                yield sc
 
 
 # ------------------------------------------------------------------------------------------
